@@ -33,7 +33,38 @@ POINTS = {
     'lex': ('lib', 'src/lib/preprocessor/lexer_helper.rs', 'crate::preprocessor::lexer_helper::verif_lex'),
     'putil': ('lib', 'src/lib/util/preprocessor_util.rs', 'crate::util::preprocessor_util::verif_putil'),
     'print': ('bin', 'src/driver/print.rs', 'crate::driver::print::verif_print'),
+    'intr': ('bin', 'src/driver/interrupts.rs', 'crate::driver::interrupts::verif_intr'),
 }
+
+PRINT_SHADOW = '''
+// ---- inserted by /verif/lib/gen.py (scratch copy only): console output goes to the ghost log
+#[cfg(any(kani, verif_native))]
+macro_rules! print {
+    ($fmt:expr) => { crate::driver::verif_io::log_event($fmt, &[]) };
+    ($fmt:expr, $($a:expr),* $(,)?) => { crate::driver::verif_io::log_event($fmt, &[$(crate::driver::verif_io::ToLog::to_log(&($a))),*]) };
+}
+#[cfg(any(kani, verif_native))]
+macro_rules! println {
+    () => { crate::driver::verif_io::log_event("\\n", &[]) };
+    ($fmt:expr) => { crate::driver::verif_io::log_event(concat!($fmt, "\\n"), &[]) };
+    ($fmt:expr, $($a:expr),* $(,)?) => { crate::driver::verif_io::log_event(concat!($fmt, "\\n"), &[$(crate::driver::verif_io::ToLog::to_log(&($a))),*]) };
+}
+// ---- end of insertion
+'''
+
+
+def insert_after_header(path, text):
+    """insert `text` after the leading comment lines (LALRPOP keeps its version / hash header there)"""
+    src = open(path).read()
+    if 'inserted by /verif/lib/gen.py' in src:
+        return
+    lines = src.split('\n')
+    i = 0
+    while i < len(lines) and lines[i].startswith('//'):
+        i += 1
+    lines[i:i] = text.split('\n')
+    open(path, 'w').write('\n'.join(lines))
+
 PARSER_POINTS = {'interp', 'prep', 'data', 'print'}
 
 
@@ -414,6 +445,26 @@ def attach(tree, kf_active):
     for l in lib_decl:
         append_once(os.path.join(lib, 'lib.rs'), l)
 
+    # ---- binary crate: console boundary (ghost log, stdin stub)
+    drv = os.path.join(tree, 'src/driver')
+    with open(os.path.join(drv, 'verif_io.rs'), 'w') as f:
+        f.write(open(os.path.join(HARNESS, 'io.rs')).read())
+    append_once(os.path.join(drv, 'mod.rs'), '%s pub mod verif_io;' % CFG)
+    append_once(os.path.join(drv, 'mod.rs'), '%s pub mod verif_bin_gen;' % CFG)
+    insert_after_header(os.path.join(drv, 'print.rs'), PRINT_SHADOW)
+    insert_after_header(os.path.join(drv, 'interrupts.rs'), PRINT_SHADOW)
+    ip = os.path.join(drv, 'interrupts.rs')
+    isrc = open(ip).read()
+    n_stdin = isrc.count('std::io::stdin().read_line(')
+    isrc = isrc.replace('std::io::stdin().read_line(', 'crate::driver::verif_io::read_line(')
+    open(ip, 'w').write(isrc)
+    info['stdin_calls_stubbed'] = n_stdin
+    bp = os.path.join(tree, 'src/bin.rs')
+    bsrc = open(bp).read()
+    if 'verif_bin_gen' not in bsrc:
+        bsrc = bsrc.replace('fn main() {', 'fn main() {\n    #[cfg(verif_native)]\n    {\n        let a: Vec<String> = std::env::args().collect();\n        if a.len() > 1 && a[1] == "--verif-replay" {\n            emulator_8086_lib::verif_rt::native::replay_cli(driver::verif_bin_gen::table(), a[1..].to_vec());\n            return;\n        }\n    }', 1)
+        open(bp, 'w').write(bsrc)
+
     for point, (crate, rel, modpath) in POINTS.items():
         target = os.path.join(tree, rel)
         if not os.path.exists(target):
@@ -469,6 +520,12 @@ def attach(tree, kf_active):
     os.makedirs(os.path.join(tree, 'examples'), exist_ok=True)
     with open(os.path.join(tree, 'examples', 'verif_replay.rs'), 'w') as out:
         out.write(open(os.path.join(VERIF, 'lib', 'replay_main.rs')).read())
+    with open(os.path.join(drv, 'verif_bin_gen.rs'), 'w') as out:
+        out.write('// GENERATED\n#[cfg(not(kani))]\npub fn table() -> Vec<(&\'static str, fn())> {\n    let mut v: Vec<(&\'static str, fn())> = Vec::new();\n')
+        for crate, t in table_entries:
+            if crate == 'bin':
+                out.write('    v.extend_from_slice(%s);\n' % t)
+        out.write('    v\n}\n')
     info['bin_tables'] = [t for c, t in table_entries if c == 'bin']
     return info
 
